@@ -57,7 +57,7 @@ RAW["colB"] = {"type": "record", "name": "pal.Palette", "fields": [{"name": "mai
                                                                {"name": "others", "type": {"type": "array", "items": "Color"}}, {"name": "m", "type": {"type": "map", "values": "pal.Color"}}]}
 DATA["colA"] = [{"main": "GREEN", "others": ["RED", "GREEN", "BLUE"], "m": {"k": "BLUE"}}]
 DATA["colB"] = [{"main": "KEY", "others": ["CYAN", "MAGENTA", "YELLOW"], "m": {"k": "YELLOW"}}]
-KINDS = ["swrite", "sread", "validate", "cwrite", "cread", "jwrite", "jread", "parse", "canon", "fingerprint", "sread_rs", "swrite_bad", "sread_short", "validate_raise"]
+KINDS = ["swrite", "sread", "validate", "cwrite", "cread", "jwrite", "jread", "parse", "canon", "fingerprint", "sread_rs", "swrite_bad", "sread_short", "validate_raise", "sread_named", "cread_recname"]
 FAILING = ("swrite_bad", "sread_short", "validate_raise")
 BAD = {"dec_hi": "not a decimal", "dec_lo": 5.5, "fdec": b"x", "rec": {"id": "x", "tags": [], "m": {}, "e": "A"}, "logical": {"d": "nope", "ts": 1, "u": "u", "dec": D("1"), "dec2": D("1")},
        "union": 12.5, "list": {"v": 1, "next": {"v": "x"}}, "colA": {"main": "KEY", "others": [], "m": {}}, "colB": {"main": "RED", "others": [], "m": {}}}
@@ -173,7 +173,7 @@ class C18(Check):
         "at most 4 preemptions per schedule; free-running threads are not sampled because they decide nothing",
         "generate_* is excluded: it draws from the process-wide random module by design",
     ]
-    required_labels = ["ops:2", "ops:3", "kind:sread", "kind:swrite", "kind:validate", "kind:parse", "kind:jwrite", "kind:cread", "logical", "shared-schema", "multi-preemption", "preempted-inside", "cold-start", "kind:fingerprint", "kind:sread_rs", "double-preemption", "failing-operation"]
+    required_labels = ["ops:2", "ops:3", "kind:sread", "kind:swrite", "kind:validate", "kind:parse", "kind:jwrite", "kind:cread", "logical", "shared-schema", "multi-preemption", "preempted-inside", "cold-start", "kind:fingerprint", "kind:sread_rs", "double-preemption", "failing-operation", "kind:sread_named", "kind:cread_recname"]
     quick = (6, 8)
     thorough = (120, 16)
     case_timeout_s = 3600  # one case = thousands of schedules, some in forked cold processes
@@ -228,6 +228,8 @@ class C18(Check):
         return [c for i, c in enumerate(self.fixed_cases(tier)) if i % nshards == shard]
 
     def fixed_cases(self, tier):
+        yield {"ops": [{"kind": "sread_named", "schema": "list", "datum": 0, "form": "parsed"}, {"kind": "sread_named", "schema": "union", "datum": 0, "form": "parsed"}], "multi": []}
+        yield {"ops": [{"kind": "cread_recname", "schema": "union", "datum": 1, "form": "parsed"}, {"kind": "cread_recname", "schema": "list", "datum": 0, "form": "parsed"}], "multi": []}
         yield {"ops": [{"kind": "swrite_bad", "schema": "rec", "datum": 0, "form": "parsed"}, {"kind": "swrite", "schema": "rec", "datum": 0, "form": "parsed"}], "multi": []}
         yield {"ops": [{"kind": "validate_raise", "schema": "union", "datum": 0, "form": "parsed"}, {"kind": "validate", "schema": "rec", "datum": 1, "form": "parsed"}], "multi": []}
         yield {"ops": [{"kind": "sread_short", "schema": "list", "datum": 0, "form": "parsed"}, {"kind": "sread", "schema": "list", "datum": 0, "form": "parsed"}], "multi": [[3, 30]]}
@@ -283,6 +285,13 @@ class C18(Check):
             # schema resolution against a parsed reader schema object shared between the threads
             return tagged.dumps(fastavro.schemaless_reader(io.BytesIO(enc), RAW[sk], self.parsed()[sk]))
 
+        # the rarely used result-shape options of the readers
+        def sread_named():
+            return tagged.dumps(fastavro.schemaless_reader(io.BytesIO(enc), schema, return_named_type=True, return_named_type_override=True))
+
+        def cread_recname():
+            return tagged.dumps(list(fastavro.reader(io.BytesIO(cenc), return_record_name=True, return_record_name_override=True)))
+
         def validate():
             return fastavro.validate(datum, schema, raise_errors=False)
 
@@ -323,7 +332,7 @@ class C18(Check):
         def fingerprint():
             return fastavro.schema.fingerprint(pre["canon"], "CRC-64-AVRO")
 
-        return {"swrite_bad": swrite_bad, "sread_short": sread_short, "validate_raise": validate_raise, "sread_rs": sread_rs, "fingerprint": fingerprint, "swrite": swrite, "sread": sread, "validate": validate, "cwrite": cwrite, "cread": cread, "jwrite": jwrite, "jread": jread, "parse": parse, "canon": canon}[kind]
+        return {"sread_named": sread_named, "cread_recname": cread_recname, "swrite_bad": swrite_bad, "sread_short": sread_short, "validate_raise": validate_raise, "sread_rs": sread_rs, "fingerprint": fingerprint, "swrite": swrite, "sread": sread, "validate": validate, "cwrite": cwrite, "cread": cread, "jwrite": jwrite, "jread": jread, "parse": parse, "canon": canon}[kind]
 
     def run_case(self, case):
         ops = case["ops"]
